@@ -128,6 +128,8 @@ class IPv4FlowSpec(NLRI):
         ip, masklen = prefix.split('/')
         ip_hex = netaddr.IPAddress(ip).packed
         masklen = int(masklen)
+        if not 0 <= masklen <= 32:
+            raise ValueError('flowspec prefix length %s is not in 0..32' % masklen)
         if 16 < masklen <= 24:
             ip_hex = ip_hex[0:3]
         elif 8 < masklen <= 16:
